@@ -631,6 +631,11 @@ func ReturnOperand(ret *ssa.Return, i int) ssa.Value {
 			}
 		}
 	}
+	// the recover block of a function with a defer returns the cells without a store of its own:
+	// a cell that is assigned once in the whole function holds that value there too
+	if sv := SingleStore(al); sv != nil {
+		return sv
+	}
 	return v
 }
 
